@@ -21,6 +21,9 @@ type crashCase struct {
 	Frame  string `json:"frame,omitempty"`  // hex: one candidate frame for single-frame decoding
 	Stream string `json:"stream,omitempty"` // hex: bytes for the stream handler
 	Note   string `json:"note,omitempty"`
+	// a long monotonous stream: Unit (hex) repeated Repeats times
+	Unit    string `json:"unit,omitempty"`
+	Repeats int    `json:"repeats,omitempty"`
 }
 
 // c07Started is the wall-clock start (unix nanos) of the case in progress; 0 when idle.
@@ -109,6 +112,57 @@ func execC07Stream(c *child.Ctx, k crashCase, cj []byte) {
 	}
 }
 
+// execC07Periodic feeds a stream that consists of one short unit repeated millions of
+// times (the filler a caster sends on an idle link, a device stuck on one message,
+// a line of zeros) and looks at every message only in passing: whatever the handler
+// does per unit, it must not add up.
+func execC07Periodic(c *child.Ctx, k crashCase, cj []byte) {
+	unit := unhex(k.Unit)
+	in := make(chan byte, 65536)
+	out := make(chan handler.Message, 64)
+	h := handler.New(fixedStart, slog.LevelInfo)
+	go h.HandleMessages(in, out)
+	go func() {
+		for i := 0; i < k.Repeats; i++ {
+			for _, b := range unit {
+				in <- b
+			}
+			if i%4096 == 0 {
+				tick()
+			}
+		}
+		close(in)
+	}()
+	done := make(chan struct{})
+	var nmsgs, nbytes int64
+	go func() {
+		for m := range out {
+			nmsgs++
+			nbytes += int64(len(m.RawData))
+			if nmsgs%100000 == 1 {
+				func() {
+					defer func() {
+						if r := recover(); r != nil {
+							c.Violate("panic", fmt.Sprintf("panic while displaying message %d of a monotonous stream: %v", nmsgs, r), cj)
+						}
+					}()
+					exerciseMessage(&m)
+				}()
+			}
+			if nmsgs%4096 == 0 {
+				tick()
+			}
+		}
+		close(done)
+	}()
+	waitOrHang(done, 20*time.Minute, "stream handler did not finish a long monotonous stream")
+	if want := int64(len(unit)) * int64(k.Repeats); nbytes != want {
+		c.Count("periodic_streams_with_a_different_byte_count_left_to_C02", 1)
+	}
+	c.Count("periodic_stream_bytes", int64(len(unit))*int64(k.Repeats))
+	c.Count("stream_messages", nmsgs)
+}
+
 var c07Types = []int{1005, 1006, 1074, 1077, 1084, 1087, 1094, 1097, 1104, 1107, 1114, 1117, 1124, 1127, 1134, 1137, 1230, 1, 4095}
 
 // shapedPayload builds a payload of the given type and length whose bits follow
@@ -193,6 +247,9 @@ func monC07(c *child.Ctx, replay json.RawMessage) {
 		}
 		if k.Stream != "" {
 			execC07Stream(c, k, replay)
+		}
+		if k.Unit != "" {
+			execC07Periodic(c, k, replay)
 		}
 		c.Eval(1, true)
 		return
@@ -310,6 +367,53 @@ func monC07(c *child.Ctx, replay json.RawMessage) {
 		}
 	}
 	// (3) arbitrary streams through the stream handler, both log levels
+	// all 256 one-byte pieces of other data, alone, before a frame and after one; with
+	// and without a line end (a lone "$", a lone "\r", ...)
+	if c.Batch == 1 || c.Thorough() && c.Batch%16 == 1 {
+		f := gen.RandFrame(r)
+		for b := 0; b < 256; b++ {
+			for _, in := range [][]byte{{byte(b)}, append([]byte{byte(b)}, f.Bytes...), append(append([]byte(nil), f.Bytes...), byte(b)),
+				{byte(b), '\r', '\n'}, append([]byte{byte(b), '\n'}, f.Bytes...), {'$', byte(b)}, {byte(b), '$'}} {
+				k := crashCase{Stream: hexs(in), Note: "one byte of other data"}
+				cj := c.BeginV(k)
+				execC07Stream(c, k, cj)
+				c.Eval(ref.Hash64(in), true)
+			}
+			for _, lvl := range []slog.Level{slog.LevelInfo, slog.LevelDebug} {
+				m := handler.Message{MessageType: -1, RawData: []byte{byte(b)}, LogLevel: lvl}
+				k := crashCase{Frame: hexs(m.RawData), Note: "a non-RTCM message of one byte, displayed"}
+				cj, _ := json.Marshal(k)
+				func() {
+					defer func() {
+						if rr := recover(); rr != nil {
+							c.Violate("panic", fmt.Sprintf("panic while displaying a non-RTCM message holding the single byte %#02x at level %v: %v", b, lvl, rr), cj)
+						}
+					}()
+					exerciseMessage(&m)
+				}()
+			}
+		}
+		c.Count("one_byte_messages_displayed", 256)
+	}
+	// long monotonous streams
+	if c.Batch == 0 || c.Thorough() && c.Batch < 12 {
+		zero := []byte{0xd3, 0, 0}
+		cc := ref.CRC24Q(zero)
+		zero = append(zero, byte(cc>>16), byte(cc>>8), byte(cc))
+		tiny := ref.Frame([]byte{0x3e})
+		units := [][]byte{zero, tiny, {0xd3}, {0xd3, 0x00}, {0x00}, []byte("$GPGGA*00\r\n"), {0xd3, 0x00, 0x00}, ref.Frame([]byte{0x43, 0x50, 0, 0, 0, 0, 0, 0}),
+			{0xd3, 0xff}, []byte("\r\n"), {0xd3, 0x03, 0xff}, gen.RandFrame(r).Bytes}
+		u := units[0]
+		total := 30 << 20
+		if c.Thorough() {
+			u = units[c.Batch%len(units)]
+			total = 64 << 20
+		}
+		k := crashCase{Unit: hexs(u), Repeats: total / len(u), Note: "one unit repeated"}
+		cj := c.BeginV(k)
+		execC07Periodic(c, k, cj)
+		c.Eval(ref.Hash64(u, []byte("periodic")), true)
+	}
 	nStreams := c.Share(c.Pick(6000, 120000))
 	for i := 0; i < nStreams; i++ {
 		var b []byte
